@@ -194,9 +194,7 @@ theorem genMEq_refines (P : Prims K) (o : Opts) (T : FTab K) (F : FSem K) (hT : 
       simp only [pure, Except.pure, bind, Except.bind] at h
       split at h
       · cases h
-      · split at h
-        · cases h
-        · cases hts : genBlock P o T body with
+      · cases hts : genBlock P o T body with
           | error e => simp [hts] at h
           | ok ts =>
             simp only [hts] at h
